@@ -1307,6 +1307,12 @@ func (a *Association) unregisterStream(s *Stream, err error) {
 
 	delete(a.streams, s.streamIdentifier)
 	s.readErr = err
+	// A pending read deadline has nothing left to do: stop its timer
+	// goroutine instead of leaving it behind until the deadline.
+	if s.readTimeoutCancel != nil {
+		close(s.readTimeoutCancel)
+		s.readTimeoutCancel = nil
+	}
 	s.readNotifier.Broadcast()
 }
 
